@@ -453,6 +453,7 @@ func triple(a, b, c int, rng *rand.Rand) vt.M {
 	}
 
 	// all 256 pointer pairs (in and out of range): nothing may panic
+	pastInc, incRawDiff := 0, 0
 	for p := 0; p < 256; p++ {
 		ci, hh := p>>6, p&63
 		r, _ := fresh(ci, hh)
@@ -464,7 +465,17 @@ func triple(a, b, c int, rng *rand.Rand) vt.M {
 			r.IsLastHop()
 			r.IsPenultimateHop()
 		})
-		g.run("IncPath(any pointers)", func() { _ = r.IncPath() })
+		g.run("IncPath(any pointers)", func() {
+			err := r.IncPath()
+			if hh >= nh && err == nil {
+				pastInc++ // a hop pointer beyond the last hop was advanced
+			}
+			var back scion.MetaHdr
+			_ = back.DecodeFromBytes(r.Raw)
+			if err == nil && back != r.PathMeta {
+				incRawDiff++ // after a successful IncPath the raw bytes and the struct disagree
+			}
+		})
 		g.run("Reverse(any pointers)", func() { _, _ = r.Reverse() })
 		g.run("ToDecoded(any pointers)", func() {
 			if d, err := r.ToDecoded(); err == nil {
@@ -479,7 +490,7 @@ func triple(a, b, c int, rng *rand.Rand) vt.M {
 	return vt.M{"ev": "tri", "s": seg[:], "ni": ni, "nh": nh, "cells": cells, "rr": rr, "rd": rd, "r2": r2,
 		"agree": agree, "restored": restored, "tdr": tdr, "hops1": hops1, "infs1": infs1,
 		"cons0": cons0, "cons1": cons1, "gh": gh, "ghd": ghd, "gi": gi, "gid": gid, "sh": sh, "si": si,
-		"r2all": r2all, "restoredall": restoredAll, "ooberr": oobErr, "oobchanged": oobChanged, "panics": g.panics, "pop": g.first}
+		"r2all": r2all, "restoredall": restoredAll, "pastinc": pastInc, "incrawdiff": incRawDiff, "ooberr": oobErr, "oobchanged": oobChanged, "panics": g.panics, "pop": g.first}
 }
 
 func emptyPath(rng *rand.Rand) vt.M {
